@@ -245,7 +245,8 @@ Definition show_value (v : value) : str :=
 (** text of the empty value (fmt "%v" of Column.GetEmptyValue): lists print as [] *)
 Definition show_empty (t : dtype) : str :=
   match t with
-  | TStrList | TInt64List | TSvcMemberList | TIfaceList => [91; 93]
+  | TStrList => []                                   (* the text of a list without entries (emptyValueString) *)
+  | TInt64List | TSvcMemberList | TIfaceList => [91; 93]
   | TCustVar => s "map[]"
   | TJSON => s "{}"
   | _ => show_value (empty_value t)
